@@ -19,6 +19,7 @@ def tables : Tables where
   helpLineAction := Generated.C07.helpLineAction
   handlerErrorClass := Generated.C07.handlerErrorClass
   errorClasses := Generated.C07.errorClasses
+  asyncActions := Generated.C07.asyncActions
 
 /-! hex transport of byte strings -/
 def hexVal (c : Char) : Option Nat :=
@@ -126,6 +127,10 @@ def handle (j : Json) : R Json := do
       | [a, b] => return (← a.getBool?, ← b.getBool?)
       | _ => throw "bad flag entry")
     return Json.mkObj [("bad", verdictJson (judgeAll tables stream outs flags))]
+  | "judge_events" =>
+    let outs ← (← fldArr j "outs").mapM (fun c => do unhex (← c.getStr?))
+    let subs ← (← fldArr j "subscribed").mapM (fun c => do unhex (← c.getStr?))
+    return Json.mkObj [("bad", jopt jnat (judgeEvents tables subs outs))]
   | _ => throw s!"C07: unknown verb {k}"
 
 end Frappy.Drive.C07
